@@ -78,7 +78,7 @@ def run(ctx):
         ("C02.R1", "hook arm: swap handler call behind offer_asset.amount == cw20 amount received", 1),
         ("C02.R2", "hook arm: swap handler call behind 'hook caller is one of the pair's own cw20 assets'", 1),
         ("C02.R3", "hook arm: the asset named in the hook is bound to the token that sent it", 1),
-        ("C02.R4", "direct arm: swap handler reachable only for a native offer asset", 2),
+        ("C02.R4", "direct arm: swap handler reachable only for a native offer asset, and only for an asset that is one of the two pools", 3),
         ("C02.R5", "declared native amount equals attached funds before pricing (shared with C09.R3)", 3),
         ("C02.R6", "payout: at most one transfer, asset = ask pool info, amount = priced return, recipient = to or the trader; reported attributes from the same values", 4),
         ("C02.R7", "swap handler is called only from the two swap arms", 2),
@@ -231,6 +231,13 @@ def run(ctx):
         r4.fail("C02.R4:no-guard", ex.path, common.span_of_block_term(ex, dcall), "the direct Swap arm reaches the swap handler without requiring a native offer asset (a cw20 offer would be credited without being delivered)")
     else:
         r4.site("direct offer asset ⊢ ExecuteMsg::Swap.offer_asset")
+    # a native offer is bound to the attached funds (R5), but the reserve credited must be the one of that very asset:
+    # the handler has to reject a named asset that is neither of its pools
+    if pool_membership(ctx, swap, offer_i):
+        r4.site("swap handler: named asset is matched against pools[0] and pools[1] by equality, neither => Err")
+    else:
+        r4.fail("C02.R4:pool-membership", swap.path, swap.span,
+                "the swap handler does not reject an offer asset that equals neither pool: a foreign native coin attached to a direct swap is priced as an offer of a pool asset the pair did not receive")
 
     # ---- R5 shared with C09.R3 ---------------------------------------------------------------------------------------
     r5 = R["C02.R5"]
